@@ -24,7 +24,7 @@ RULE = (
     "snapshot), no symbol stranded without referent, still serializable. "
     "non-trivial = at least one sanitizer pass on a rewritten module; "
     "distinct = shape signature x number of fault points."
-    " Patches may carry real alignment directives; 40% of the modules have alignment entries on input blocks; zero-sized input blocks as in C01."
+    " Patches may carry real alignment directives; 40% of the modules have alignment entries on input blocks; zero-sized input blocks as in C01; in 40% every unknown return target is one shared proxy."
 )
 ASSUMPTIONS = [
     "faults are injected only at patch callbacks (as the property says)",
